@@ -655,3 +655,58 @@ def _replace(root: ast.AST, old: ast.AST, new: ast.AST) -> ast.AST:
             return node
 
     return ast.fix_missing_locations(Copy().generic_visit(root))
+
+
+def admissible_kinds(fn: ast.AST, node: ast.AST, subject: str, universe: Set[str]) -> Set[str]:
+    """The classes (bare names, out of `universe` plus '<other>') the subject can have when `node` executes,
+    read off the isinstance tests among its path conditions."""
+    adm = set(universe) | {"<other>"}
+    for t, pol in path_conditions(fn, node):
+        r = au.isinstance_classes(t) if isinstance(t, ast.Call) else None
+        if r is None or ast.unparse(r[0]) != subject:
+            continue
+        ks = {ast.unparse(c).split(".")[-1] for c in r[1]}
+        adm = (adm & ks) if pol else (adm - ks)
+    return adm
+
+
+def presence(fn: ast.AST, node: ast.AST, table: str, key: str) -> Optional[bool]:
+    """Whether `node` executes with `key` known to be in `table` (True), known to be absent (False) or neither
+    (None) — for both spellings of the test: `key in table`, and `table.get(key) is None` (possibly through a local)."""
+    for t, pol in path_conditions(fn, node):
+        txt = prov_text(fn, t)
+        if txt == f"{key} in {table}":
+            return pol
+        if txt in (f"{table}.get({key}) is None", f"{table}.get({key}, None) is None"):
+            return not pol
+    return None
+
+
+def memo_discipline(fn: ast.AST, table: str, key: str) -> Tuple[bool, str]:
+    """`fn` memoises its result in `table` under `key`: every return hands out the table's entry (read when the
+    key is present, or after the miss-branch stored it) or the very object it has just stored under the key;
+    the store happens only on a miss.  Spellings (early return on a hit, fill-on-miss with one exit, `.get`) do not matter."""
+    def is_entry(e):
+        return isinstance(e, ast.Subscript) and ast.unparse(e.slice) == key and prov_text(fn, e.value) == table
+
+    stores = [st for st in au.stmts(fn) if isinstance(st, ast.Assign) and any(is_entry(t) for t in st.targets)]
+    if not stores:
+        return False, f"nothing is stored into {table}[{key}]"
+    if any(presence(fn, st, table, key) is not False for st in stores):
+        return False, f"{table}[{key}] is (re)written although the key may be present"
+    rets = returns_of(fn)
+    if not rets:
+        return False, "no return"
+    for r in rets:
+        v = r.value
+        if v is None:
+            return False, "returns nothing"
+        if is_entry(v) or is_entry(prov(fn, v, depth=1)):
+            if presence(fn, r, table, key) is True or any(precedes(fn, st, r) for st in stores):
+                continue
+            return False, f"`{ast.unparse(r)}` reads the table without a hit or a preceding store"
+        same = [st for st in stores if (isinstance(v, ast.Name) and isinstance(st.value, ast.Name) and st.value.id == v.id) or ast.unparse(st.value) == ast.unparse(v)]
+        if same and any(precedes(fn, st, r) for st in same) and (isinstance(v, ast.Name) or au._is_pure(v)):
+            continue
+        return False, f"`{ast.unparse(r)}` returns an object that is not the table's entry"
+    return True, f"returns {table}[{key}] on a hit and the stored object on a miss"
